@@ -317,7 +317,11 @@ def _eval_new_ctx(
         _logger.debug(
             f"_eval_new_ctx: introspect_indirect: {len(all_loads)} loads and {len(all_stores)} detected"
         )
-        loads_to_check = sorted([p for p in all_loads if p not in all_stores])
+        # The path kept by this very call (dds.keep(path, fun)) is produced by the evaluation too, when it returns:
+        # a load of it inside the evaluation does not refer to what the store holds from earlier runs.
+        loads_to_check = sorted(
+            [p for p in all_loads if p not in all_stores and p != path]
+        )
         # Check that there are no indirect references to resolve:
         if loads_to_check:
             _logger.debug(
